@@ -276,6 +276,35 @@ theorem walkFrom_ne_fuel {G : Graph} {tr : List (Ref × Ref)} {r : Ref} (hr : as
   rw [h] at this
   exact this.1 rfl
 
+theorem dictCryptKind_ne_fuel (d : KV) : dictCryptKind d ≠ .error .fuel := by
+  unfold dictCryptKind
+  simp only
+  split
+  · simp
+  · split
+    · split
+      · next e he => intro h; cases h; exact parseCryptKind_ne_fuel _ he
+      · split <;> simp
+    · split <;> simp
+
+theorem putRefusal_ne_fuel (tv : Nat) (v : Val) : putRefusal tv v ≠ some .fuel := by
+  unfold putRefusal
+  split
+  · simp
+  · split
+    · next e he => intro h; cases h; exact dictCryptKind_ne_fuel _ he
+    · simp
+    · simp
+    · split <;> simp
+
+theorem put_ne_fuel (s : St) (r : Ref) (v : Val) : put s r v ≠ .error .fuel := by
+  unfold put
+  split
+  · simp
+  · split
+    · next e he => intro h; cases h; exact putRefusal_ne_fuel _ _ he
+    · simp
+
 section
 variable (G : Graph) (U : List Ref) (W : Nat)
 
@@ -461,15 +490,14 @@ theorem fstep_ref (hC : Closed G U W) (f : Nat) (hV : FVal G U W f) : FRef G U W
         have hlt := unv_enter_lt (U := U) (n := refOf s.next) hr w3 w2
         have hm : (unv U (enter chain (refOf s.next) s.trans) + 1) * (W + 6) ≤ unv U s.trans * (W + 6) :=
           Nat.mul_le_mul_right _ hlt
-        have h1 := hV { trans := enter chain (refOf s.next) s.trans, next := s.next + 1, puts := s.puts } v
+        have h1 := hV { trans := enter chain (refOf s.next) s.trans, next := s.next + 1, puts := s.puts, tgtV := s.tgtV } v
           (hC r v hr hres) (by simp only; rw [Nat.add_mul] at hm; omega)
         split
         · next e he => intro h; cases h; exact h1 he
         · split
           · next e he =>
             intro h; cases h
-            unfold put at he
-            split at he <;> cases he
+            exact put_ne_fuel _ _ _ he
           · intro h; cases h
 
 /-- With `Closed G U W`: no call of the copier runs out of fuel once the fuel covers
@@ -594,8 +622,6 @@ theorem closed_allRefs (G : Graph) (ops : List Op) : Closed G (allRefs G ops) (m
 theorem alloc_ne_fuel (s : St) : alloc s ≠ .error .fuel := by
   unfold alloc; split <;> simp
 
-theorem put_ne_fuel (s : St) (r : Ref) (v : Val) : put s r v ≠ .error .fuel := by
-  unfold put; split <;> simp
 
 theorem allocPut_ne_fuel (s : St) (v : Val) : allocPut s v ≠ .error .fuel := by
   unfold allocPut
@@ -884,10 +910,168 @@ theorem fuel_irrelevant {f : Nat} {s : St} {r : Ref} (h : copyRef f G s r ≠ .e
 
 end
 
+/-! ### the /Crypt probe of `Writer.OpenStream` does not depend on the translation -/
+
+theorem kvLookup_mapKV {tr : List (Ref × Ref)} (k : Bytes) :
+    ∀ (kv kv' : KV), mapKV tr kv = some kv' →
+      (kvLookup k kv = none ∧ kvLookup k kv' = none) ∨
+      ∃ x y, kvLookup k kv = some x ∧ kvLookup k kv' = some y ∧ mapObj tr x = some y
+  | [], kv' => by intro e; simp only [mapKV] at e; cases e; exact Or.inl ⟨rfl, rfl⟩
+  | (k', v) :: rest, kv' => by
+    simp only [mapKV]
+    split
+    · next v' rest' hv hr =>
+      intro e; cases e
+      simp only [kvLookup]
+      split
+      · exact Or.inr ⟨v, v', rfl, rfl, hv⟩
+      · exact kvLookup_mapKV k rest rest' hr
+    · intro e; cases e
+
+theorem isCryptName_map {tr : List (Ref × Ref)} {x y : Obj} (h : mapObj tr x = some y) :
+    isCryptName y = isCryptName x := by
+  cases x <;> simp only [mapObj] at h
+  case ref n g => split at h <;> cases h; rfl
+  case arr xs => split at h <;> cases h; rfl
+  case dict kv => split at h <;> cases h; rfl
+  all_goals (cases h; rfl)
+
+theorem anyCrypt_map {tr : List (Ref × Ref)} :
+    ∀ (xs ys : List Obj), mapList tr xs = some ys → ys.any isCryptName = xs.any isCryptName
+  | [], ys => by intro e; simp only [mapList] at e; cases e; rfl
+  | x :: xs, ys => by
+    simp only [mapList]
+    split
+    · next y ys' hy hys =>
+      intro e; cases e
+      simp only [List.any_cons, isCryptName_map hy, anyCrypt_map xs ys' hys]
+    · intro e; cases e
+
+/-- what `parseCrypt` sees of a mapped parameter dictionary -/
+theorem parseCryptKind_map {tr : List (Ref × Ref)} {p p' : KV} (h : mapKV tr p = some p') :
+    parseCryptKind (some p') = parseCryptKind (some p) := by
+  simp only [parseCryptKind, Option.bind_some]
+  rcases kvLookup_mapKV keyName p p' h with ⟨h1, h2⟩ | ⟨x, y, h1, h2, hxy⟩
+  · rw [h1, h2]
+  · rw [h1, h2]
+    cases x <;> simp only [mapObj] at hxy
+    case ref n g => split at hxy <;> cases hxy; rfl
+    case arr xs => split at hxy <;> cases hxy; rfl
+    case dict kv => split at hxy <;> cases hxy; rfl
+    all_goals (cases hxy; rfl)
+
+/-- the names `dictCryptFilter` loops over -/
+def filterNames (d : KV) : List Obj :=
+  match kvLookup keyFilter d with
+  | some (.name f) => [.name f]
+  | some (.arr xs) => xs
+  | _ => []
+
+/-- the parameters `dictCryptFilter` hands to `parseCrypt` -/
+def cryptParms (d : KV) : Option KV :=
+  match kvLookup keyDecodeParms d with
+  | some (.dict p) => some p
+  | some (.arr (.dict p :: _)) => some p
+  | _ => none
+
+def cryptOf (names : List Obj) (parms : Option KV) : Except CErr (Option FKind) :=
+  match names with
+  | [] => .ok none
+  | x :: rest =>
+    if isCryptName x then
+      match parseCryptKind parms with
+      | .error e => .error e
+      | .ok k => if rest.any isCryptName then .error .other else .ok (some k)
+    else if rest.any isCryptName then .error .other else .ok none
+
+theorem dictCryptKind_eq (d : KV) : dictCryptKind d = cryptOf (filterNames d) (cryptParms d) := rfl
+
+theorem filterNames_map {tr : List (Ref × Ref)} {d d' : KV} (h : mapKV tr d = some d') :
+    mapList tr (filterNames d) = some (filterNames d') := by
+  unfold filterNames
+  rcases kvLookup_mapKV keyFilter d d' h with ⟨h1, h2⟩ | ⟨x, y, h1, h2, hxy⟩
+  · rw [h1, h2]; rfl
+  · rw [h1, h2]
+    cases x <;> simp only [mapObj] at hxy
+    case ref n g => split at hxy <;> cases hxy; rfl
+    case arr xs =>
+      split at hxy
+      · next ys hys => cases hxy; exact hys
+      · cases hxy
+    case dict kv => split at hxy <;> cases hxy; rfl
+    all_goals (cases hxy; rfl)
+
+theorem cryptParms_map {tr : List (Ref × Ref)} {d d' : KV} (h : mapKV tr d = some d') :
+    parseCryptKind (cryptParms d') = parseCryptKind (cryptParms d) := by
+  unfold cryptParms
+  rcases kvLookup_mapKV keyDecodeParms d d' h with ⟨h1, h2⟩ | ⟨x, y, h1, h2, hxy⟩
+  · rw [h1, h2]
+  · rw [h1, h2]
+    cases x <;> simp only [mapObj] at hxy
+    case ref n g => split at hxy <;> cases hxy; rfl
+    case dict kv =>
+      split at hxy
+      · next kv' hkv => cases hxy; exact parseCryptKind_map hkv
+      · cases hxy
+    case arr xs =>
+      split at hxy
+      · next ys hys =>
+        cases hxy
+        cases xs with
+        | nil => simp only [mapList] at hys; cases hys; rfl
+        | cons x0 xr =>
+          simp only [mapList] at hys
+          split at hys
+          · next y0 yr hy0 hyr =>
+            cases hys
+            cases x0 <;> simp only [mapObj] at hy0
+            case ref n g => split at hy0 <;> cases hy0; rfl
+            case arr zs => split at hy0 <;> cases hy0; rfl
+            case dict kv =>
+              split at hy0
+              · next kv' hkv => cases hy0; exact parseCryptKind_map hkv
+              · cases hy0
+            all_goals (cases hy0; rfl)
+          · cases hys
+      · cases hxy
+    all_goals (cases hxy; rfl)
+
+theorem cryptOf_map {tr : List (Ref × Ref)} {xs ys : List Obj} (h : mapList tr xs = some ys)
+    {p p' : Option KV} (hp : parseCryptKind p' = parseCryptKind p) : cryptOf ys p' = cryptOf xs p := by
+  cases xs with
+  | nil => simp only [mapList] at h; cases h; rfl
+  | cons x rest =>
+    simp only [mapList] at h
+    split at h
+    · next y ys' hy hys =>
+      cases h
+      simp only [cryptOf, isCryptName_map hy, anyCrypt_map rest ys' hys, hp]
+    · cases h
+
+/-- **the refusal is a property of the source stream:** whether `Writer.Put` refuses the copy
+    of a stream can be read off the (inlined) source dictionary; the translation of the references
+    does not matter. -/
+theorem putRefusal_map {tr : List (Ref × Ref)} {sp v' : Val} (tv : Nat) (h : mapVal tr sp = some v') :
+    putRefusal tv v' = putRefusal tv sp := by
+  cases sp with
+  | obj o =>
+    simp only [mapVal] at h
+    split at h <;> cases h
+    rfl
+  | stream d data enc =>
+    simp only [mapVal] at h
+    split at h
+    · next d' hd =>
+      cases h
+      simp only [putRefusal, dictCryptKind_eq]
+      rw [cryptOf_map (filterNames_map hd) (cryptParms_map hd)]
+    · cases h
+
 /-! ### on a readable source the copier does not fail -/
 
 theorem put_succeeds {G : Graph} {s s3 : St} {tr : List (Ref × Ref)} (v : Val) (hp : PB s)
-    (h : Eff G { trans := tr, next := s.next + 1, puts := s.puts } s3) :
+    (h : Eff G { trans := tr, next := s.next + 1, puts := s.puts, tgtV := s.tgtV } s3)
+    (hacc : putRefusal s3.tgtV v = none) :
     ∃ s4, put s3 (refOf s.next) v = .ok s4 := by
   obtain ⟨P, hb, hk⟩ := h.new_keys
   simp only at hb hk
@@ -901,43 +1085,48 @@ theorem put_succeeds {G : Graph} {s s3 : St} {tr : List (Ref × Ref)} (v : Val) 
     · obtain ⟨m, hm, h1, _⟩ := hk p.1 (List.mem_map.mpr ⟨p, e, rfl⟩)
       rw [hm]; simp only [refOf]; omega
   unfold put
-  rw [hfree]
+  rw [hfree, hacc]
   exact ⟨_, rfl⟩
 
-def BenignVal (G : Graph) : Val → Prop
+/-- a source value the copier can copy into a target with /V `tv` (0: not encrypted): /Filter and
+    /DecodeParms can be inlined, the source's crypt filter can be decoded, and the target takes
+    the stream's /Crypt filter, if it names one (`putRefusal`: only /Identity, and only where crypt
+    filters exist) -/
+def BenignVal (G : Graph) (tv : Nat) : Val → Prop
   | .obj _ => True
-  | .stream dict _ enc =>
+  | .stream dict data enc =>
     (∀ key, (key = keyFilter ∨ key = keyDecodeParms) → ∀ val, kvLookup key dict = some val →
       ∃ inl, inlineFilterRefs G val = .ok (.obj inl)) ∧
-    ∃ rc, streamCryptRecipe G dict enc = .ok rc ∧ rc ≠ .unsupportedCF
+    (∃ rc, streamCryptRecipe G dict enc = .ok rc ∧ rc ≠ .unsupportedCF) ∧
+    ∀ d, specDict G dict = some d → putRefusal tv (.stream d data false) = none
 
 /-- every reference of `U` can be read, and the streams among them have a well-formed filter
     chain and no crypt filter the library cannot decode -/
-def Benign (G : Graph) (U : List Ref) : Prop :=
-  ∀ r ∈ U, ∃ v, resolveOrNull G r = .ok v ∧ BenignVal G v
+def Benign (G : Graph) (tv : Nat) (U : List Ref) : Prop :=
+  ∀ r ∈ U, ∃ v, resolveOrNull G r = .ok v ∧ BenignVal G tv v
 
 section
-variable (G : Graph) (U : List Ref) (W : Nat)
+variable (G : Graph) (U : List Ref) (W : Nat) (tv : Nat)
 
-def SObj (f : Nat) : Prop := ∀ s o, PB s → (∀ b ∈ orefs o, b ∈ U) →
+def SObj (f : Nat) : Prop := ∀ s o, PBT tv s → (∀ b ∈ orefs o, b ∈ U) →
   osize o + 1 + unv U s.trans * (W + 6) ≤ f → Fine (copyObj f G s o)
-def SList (f : Nat) : Prop := ∀ s xs, PB s → (∀ b ∈ lrefs xs, b ∈ U) →
+def SList (f : Nat) : Prop := ∀ s xs, PBT tv s → (∀ b ∈ lrefs xs, b ∈ U) →
   lsize xs + 1 + unv U s.trans * (W + 6) ≤ f → Fine (copyList f G s xs)
-def SKV (f : Nat) : Prop := ∀ s L, PB s → (∀ b ∈ kvrefs L, b ∈ U) →
+def SKV (f : Nat) : Prop := ∀ s L, PBT tv s → (∀ b ∈ kvrefs L, b ∈ U) →
   kvsize L + 1 + unv U s.trans * (W + 6) ≤ f → Fine (copyKV f G s L)
-def SInl (f : Nat) : Prop := ∀ s src res key, PB s →
+def SInl (f : Nat) : Prop := ∀ s src res key, PBT tv s →
   (∀ val, kvLookup key src = some val → ∃ inl, inlineFilterRefs G val = .ok (.obj inl) ∧ GoodObj U W inl) →
   W + 2 + unv U s.trans * (W + 6) ≤ f → Fine (inlineKey f G s src res key)
-def SSD (f : Nat) : Prop := ∀ s src data enc, PB s → GoodVal G U W (.stream src data enc) →
-  BenignVal G (.stream src data enc) →
+def SSD (f : Nat) : Prop := ∀ s src data enc, PBT tv s → GoodVal G U W (.stream src data enc) →
+  BenignVal G tv (.stream src data enc) →
   W + 4 + unv U s.trans * (W + 6) ≤ f → Fine (copyStreamDict f G s src)
-def SVal (f : Nat) : Prop := ∀ s v, PB s → GoodVal G U W v → BenignVal G v →
+def SVal (f : Nat) : Prop := ∀ s v, PBT tv s → GoodVal G U W v → BenignVal G tv v →
   W + 5 + unv U s.trans * (W + 6) ≤ f → Fine (copyVal f G s v)
-def SRef (f : Nat) : Prop := ∀ s r, PB s → r ∈ U →
+def SRef (f : Nat) : Prop := ∀ s r, PBT tv s → r ∈ U →
   1 + unv U s.trans * (W + 6) ≤ f → Fine (copyRef f G s r)
 
-theorem sstep_obj (f : Nat) (hL : SList G U W f) (hK : SKV G U W f) (hR : SRef G U W f) :
-    SObj G U W (f+1) := by
+theorem sstep_obj (f : Nat) (hL : SList G U W tv f) (hK : SKV G U W tv f) (hR : SRef G U W tv f) :
+    SObj G U W tv (f+1) := by
   intro s o hp hrefs hf
   cases o with
   | dict kv =>
@@ -963,7 +1152,7 @@ theorem sstep_obj (f : Nat) (hL : SList G U W f) (hK : SKV G U W f) (hR : SRef G
     · exact Or.inr rfl
   | _ => simp only [copyObj]; exact Or.inl ⟨_, rfl⟩
 
-theorem sstep_list (f : Nat) (hO : SObj G U W f) (hL : SList G U W f) : SList G U W (f+1) := by
+theorem sstep_list (f : Nat) (hO : SObj G U W tv f) (hL : SList G U W tv f) : SList G U W tv (f+1) := by
   intro s xs hp hrefs hf
   cases xs with
   | nil => simp only [copyList]; exact Or.inl ⟨_, rfl⟩
@@ -975,7 +1164,7 @@ theorem sstep_list (f : Nat) (hO : SObj G U W f) (hL : SList G U W f) : SList G 
     rcases h1 with ⟨⟨y, s1⟩, hy⟩ | hy <;> rw [hy]
     · have e1 := ((copy_main G f).1 s x y s1 hy).1
       have hu := unv_mono (U := U) e1.extends
-      have h2 := hL s1 xs (e1.pb hp) (fun b hb => hrefs b (Or.inr hb))
+      have h2 := hL s1 xs (e1.pbt hp) (fun b hb => hrefs b (Or.inr hb))
         (by have := osize_pos x
             have : unv U s1.trans * (W + 6) ≤ unv U s.trans * (W + 6) := Nat.mul_le_mul_right _ hu
             omega)
@@ -986,7 +1175,7 @@ theorem sstep_list (f : Nat) (hO : SObj G U W f) (hL : SList G U W f) : SList G 
     · exact Or.inr rfl
 
 
-theorem sstep_kv (f : Nat) (hO : SObj G U W f) (hK : SKV G U W f) : SKV G U W (f+1) := by
+theorem sstep_kv (f : Nat) (hO : SObj G U W tv f) (hK : SKV G U W tv f) : SKV G U W tv (f+1) := by
   intro s L hp hrefs hf
   cases L with
   | nil => simp only [copyKV]; exact Or.inl ⟨_, rfl⟩
@@ -1006,7 +1195,7 @@ theorem sstep_kv (f : Nat) (hO : SObj G U W f) (hK : SKV G U W f) : SKV G U W (f
       rcases h1 with ⟨⟨y, s1⟩, hy⟩ | hy <;> rw [hy]
       · have e1 := ((copy_main G f).1 s v y s1 hy).1
         have hu := unv_mono (U := U) e1.extends
-        have h2 := hK s1 rest (e1.pb hp) (fun b hb => hrefs b (Or.inr hb))
+        have h2 := hK s1 rest (e1.pbt hp) (fun b hb => hrefs b (Or.inr hb))
           (by have := osize_pos v
               have : unv U s1.trans * (W + 6) ≤ unv U s.trans * (W + 6) := Nat.mul_le_mul_right _ hu
               omega)
@@ -1016,7 +1205,7 @@ theorem sstep_kv (f : Nat) (hO : SObj G U W f) (hK : SKV G U W f) : SKV G U W (f
         · exact Or.inr rfl
       · exact Or.inr rfl
 
-theorem sstep_inl (f : Nat) (hO : SObj G U W f) : SInl G U W (f+1) := by
+theorem sstep_inl (f : Nat) (hO : SObj G U W tv f) : SInl G U W tv (f+1) := by
   intro s src res key hp hgood hf
   simp only [inlineKey]
   cases hk : kvLookup key src with
@@ -1029,7 +1218,7 @@ theorem sstep_inl (f : Nat) (hO : SObj G U W f) : SInl G U W (f+1) := by
     · exact Or.inl ⟨_, rfl⟩
     · exact Or.inr rfl
 
-theorem sstep_sd (f : Nat) (hK : SKV G U W f) (hI : SInl G U W f) : SSD G U W (f+1) := by
+theorem sstep_sd (f : Nat) (hK : SKV G U W tv f) (hI : SInl G U W tv f) : SSD G U W tv (f+1) := by
   intro s src data enc hp hgood hben hf
   obtain ⟨g1, g2, g3⟩ := hgood
   obtain ⟨b1, _⟩ := hben
@@ -1046,17 +1235,17 @@ theorem sstep_sd (f : Nat) (hK : SKV G U W f) (hI : SInl G U W f) : SSD G U W (f
   · have e1 := ((copy_main G f).2.2.1 s _ res1 s1 hr1).1
     have hu1 := unv_mono (U := U) e1.extends
     have m1 : unv U s1.trans * (W + 6) ≤ unv U s.trans * (W + 6) := Nat.mul_le_mul_right _ hu1
-    have h2 := hI s1 src res1 keyFilter (e1.pb hp) (hkey keyFilter (Or.inl rfl)) (by omega)
+    have h2 := hI s1 src res1 keyFilter (e1.pbt hp) (hkey keyFilter (Or.inl rfl)) (by omega)
     simp only
     rcases h2 with ⟨⟨res2, s2⟩, hr2⟩ | hr2 <;> rw [hr2]
     · have e2 := ((copy_main G f).2.2.2.1 s1 src res1 keyFilter res2 s2 hr2).1
       have hu2 := unv_mono (U := U) e2.extends
       have m2 : unv U s2.trans * (W + 6) ≤ unv U s1.trans * (W + 6) := Nat.mul_le_mul_right _ hu2
-      exact hI s2 src res2 keyDecodeParms (e2.pb (e1.pb hp)) (hkey keyDecodeParms (Or.inr rfl)) (by omega)
+      exact hI s2 src res2 keyDecodeParms (e2.pbt (e1.pbt hp)) (hkey keyDecodeParms (Or.inr rfl)) (by omega)
     · exact Or.inr rfl
   · exact Or.inr rfl
 
-theorem sstep_val (f : Nat) (hO : SObj G U W f) (hS : SSD G U W f) : SVal G U W (f+1) := by
+theorem sstep_val (f : Nat) (hO : SObj G U W tv f) (hS : SSD G U W tv f) : SVal G U W tv (f+1) := by
   intro s v hp hgood hben hf
   cases v with
   | obj o =>
@@ -1068,14 +1257,14 @@ theorem sstep_val (f : Nat) (hO : SObj G U W f) (hS : SSD G U W f) : SVal G U W 
   | stream dict data enc =>
     simp only [copyVal]
     have h1 := hS s dict data enc hp hgood hben (by omega)
-    obtain ⟨_, rc, hrc, hne⟩ := hben
+    obtain ⟨_, ⟨rc, hrc, hne⟩, _⟩ := hben
     rcases h1 with ⟨⟨d', s1⟩, ha⟩ | ha <;> rw [ha]
     · simp only [hrc]
       cases rc <;> first | exact absurd rfl hne | exact Or.inl ⟨_, rfl⟩
     · exact Or.inr rfl
 
-theorem sstep_ref (hC : Closed G U W) (hB : Benign G U) (f : Nat) (hV : SVal G U W f) :
-    SRef G U W (f+1) := by
+theorem sstep_ref (hC : Closed G U W) (hB : Benign G tv U) (f : Nat) (hV : SVal G U W tv f) :
+    SRef G U W tv (f+1) := by
   intro s r hp hr hf
   simp only [copyRef]
   cases ht : assoc r s.trans with
@@ -1105,27 +1294,38 @@ theorem sstep_ref (hC : Closed G U W) (hB : Benign G U) (f : Nat) (hV : SVal G U
         have hlt := unv_enter_lt (U := U) (n := refOf s.next) hr w3 w2
         have hm : (unv U (enter chain (refOf s.next) s.trans) + 1) * (W + 6) ≤ unv U s.trans * (W + 6) :=
           Nat.mul_le_mul_right _ hlt
-        have hp2 : PB { trans := enter chain (refOf s.next) s.trans, next := s.next + 1, puts := s.puts } := by
-          intro k hk; have := hp k hk; simp only; omega
-        have h1 := hV { trans := enter chain (refOf s.next) s.trans, next := s.next + 1, puts := s.puts } v0 hp2
+        have hp2 : PBT tv { trans := enter chain (refOf s.next) s.trans, next := s.next + 1, puts := s.puts, tgtV := s.tgtV } := by
+          refine ⟨?_, hp.2⟩
+          intro k hk; have := hp.1 k hk; simp only; omega
+        have h1 := hV { trans := enter chain (refOf s.next) s.trans, next := s.next + 1, puts := s.puts, tgtV := s.tgtV } v0 hp2
           (hC r v0 hr hres0) hbv0 (by simp only; rw [Nat.add_mul] at hm; omega)
         rcases h1 with ⟨⟨v', s3⟩, ha⟩ | ha
-        · have e := ((copy_main G f).2.2.2.2.2.1 _ v0 v' s3 ha).1
-          obtain ⟨s4, h4⟩ := put_succeeds v' hp e
-          have ha' : copyVal f G { trans := enter chain (s.next, 0) s.trans, next := s.next + 1, puts := s.puts } v0
+        · obtain ⟨e, sp, hsp, hmv⟩ := (copy_main G f).2.2.2.2.2.1 _ v0 v' s3 ha
+          have htv : s3.tgtV = tv := e.tgtV.trans hp.2
+          have hacc : putRefusal s3.tgtV v' = none := by
+            rw [putRefusal_map _ hmv, htv]
+            cases v0 with
+            | obj o => simp only [specVal] at hsp; cases hsp; rfl
+            | stream dict data enc =>
+              simp only [specVal] at hsp
+              split at hsp
+              · next d hd => cases hsp; exact hbv0.2.2 d hd
+              · cases hsp
+          obtain ⟨s4, h4⟩ := put_succeeds v' hp.1 e hacc
+          have ha' : copyVal f G { trans := enter chain (s.next, 0) s.trans, next := s.next + 1, puts := s.puts, tgtV := s.tgtV } v0
               = .ok (v', s3) := ha
           have h4' : put s3 (s.next, 0) v' = .ok s4 := h4
           simp only [ha', h4']
           exact Or.inl ⟨_, rfl⟩
-        · have ha' : copyVal f G { trans := enter chain (s.next, 0) s.trans, next := s.next + 1, puts := s.puts } v0
+        · have ha' : copyVal f G { trans := enter chain (s.next, 0) s.trans, next := s.next + 1, puts := s.puts, tgtV := s.tgtV } v0
               = .error .overflow := ha
           simp only [ha']
           exact Or.inr rfl
 
 /-- With a closed universe of readable references, every call returns ok (or reports the
     object-number overflow) once the fuel is sufficient. -/
-theorem success_main (hC : Closed G U W) (hB : Benign G U) : ∀ f : Nat,
-    SObj G U W f ∧ SList G U W f ∧ SKV G U W f ∧ SInl G U W f ∧ SSD G U W f ∧ SVal G U W f ∧ SRef G U W f := by
+theorem success_main (hC : Closed G U W) (hB : Benign G tv U) : ∀ f : Nat,
+    SObj G U W tv f ∧ SList G U W tv f ∧ SKV G U W tv f ∧ SInl G U W tv f ∧ SSD G U W tv f ∧ SVal G U W tv f ∧ SRef G U W tv f := by
   intro f
   induction f with
   | zero =>
@@ -1139,34 +1339,36 @@ theorem success_main (hC : Closed G U W) (hB : Benign G U) : ∀ f : Nat,
     · intro s a _ _ h; omega
   | succ f ih =>
     obtain ⟨hO, hL, hK, hI, hS, hV, hR⟩ := ih
-    exact ⟨sstep_obj G U W f hL hK hR, sstep_list G U W f hO hL, sstep_kv G U W f hO hK,
-      sstep_inl G U W f hO, sstep_sd G U W f hK hI, sstep_val G U W f hO hS,
-      sstep_ref G U W hC hB f hV⟩
+    exact ⟨sstep_obj G U W tv f hL hK hR, sstep_list G U W tv f hO hL, sstep_kv G U W tv f hO hK,
+      sstep_inl G U W tv f hO, sstep_sd G U W tv f hK hI, sstep_val G U W tv f hO hS,
+      sstep_ref G U W tv hC hB f hV⟩
 
 end
 
 /-- **copy_succeeds.**  If every reference occurring in the source graph and the program can be
-read (no I/O failure) and the streams have well-formed filter chains and no crypt filter the
-library cannot decode, then `CopyReference`, run with the driver's fuel from any state whose
+read (no I/O failure) and the streams have well-formed filter chains, no crypt filter the
+library cannot decode and no /Crypt filter the target's `Writer.Put` refuses (`BenignVal`: a
+non-Identity one, or any where the target is encrypted with /V < 4),
+then `CopyReference`, run with the driver's fuel from any state whose
 written object numbers are below `next` (a new `Writer`, or any state reached by the copier),
 returns a reference — the only other outcome is the object-number overflow of `Writer.Alloc`.
 Malformed objects, dangling references and reference cycles are not failures. -/
 theorem copy_succeeds (G : Graph) (ops : List Op) (r : Ref) (hop : Op.copyRef r ∈ ops)
-    (hB : Benign G (allRefs G ops)) (s : St) (hp : PB s) :
+    (s : St) (hB : Benign G s.tgtV (allRefs G ops)) (hp : PB s) :
     (∃ t s', copyRef (fuelFor G ops) G s r = .ok (t, s')) ∨
       copyRef (fuelFor G ops) G s r = .error .overflow := by
-  have hmain := success_main G (allRefs G ops) (maxWeight G ops) (closed_allRefs G ops) hB (fuelFor G ops)
+  have hmain := success_main G (allRefs G ops) (maxWeight G ops) s.tgtV (closed_allRefs G ops) hB (fuelFor G ops)
   have hu := unv_le_length (allRefs G ops) s.trans
   have hmul : unv (allRefs G ops) s.trans * (maxWeight G ops + 6) ≤
       (allRefs G ops).length * (maxWeight G ops + 6) := Nat.mul_le_mul_right _ hu
   have hfuel : fuelFor G ops = (allRefs G ops).length * (maxWeight G ops + 6) + 2 * (maxWeight G ops + 6) := by
     unfold fuelFor; rw [Nat.add_mul]
-  have := hmain.2.2.2.2.2.2 s r hp (opRefs_mem hop r (by simp [opRefs])) (by omega)
+  have := hmain.2.2.2.2.2.2 s r ⟨hp, rfl⟩ (opRefs_mem hop r (by simp [opRefs])) (by omega)
   rcases this with ⟨⟨t, s'⟩, h⟩ | h
   · exact Or.inl ⟨t, s', h⟩
   · exact Or.inr h
 
-theorem init_pb (n0 : Nat) : PB (St.init n0) := by simp [PB, St.init]
+theorem init_pb (n0 : Nat) (tv : Nat := 0) : PB (St.init n0 tv) := by simp [PB, St.init]
 
 
 end PdfVerif.C11cpyb
